@@ -317,7 +317,7 @@ def job_transform(job):
         job.errors.append(f"floating-point round-trip lemma: {r}")
 
 
-def replay_comparison(model, filt=False):
+def replay_comparison(model, filt=False, window=None):
     """Real plot_production_comparison (matplotlib, Agg) on a small production table whose Days are not 0, 1, 2, ...:
     the three drawn curves against an independent run of the library's forward model on the documented time axis."""
     import warnings
@@ -348,10 +348,13 @@ def replay_comparison(model, filt=False):
     par.add("p_initial", value=pi)
     with warnings.catch_warnings():
         warnings.simplefilter("ignore")
-        fig, (ax1, ax2) = fp.plot_production_comparison(data, pvt, par, filter_zero_prod_days=filt)
+        fig, (ax1, ax2) = fp.plot_production_comparison(data, pvt, par, filter_zero_prod_days=filt, filter_window_size=window)
         kept = data[(data["Gas"] > 0) & data["Pressure"].notna()] if filt else data
         t = np.arange(len(kept), dtype=float) if filt else kept["Days"].to_numpy(float)
         pf = kept["Pressure"].to_numpy(float)
+        if window is not None:
+            from scipy.ndimage import uniform_filter1d
+            pf = uniform_filter1d(pf, size=window)      # the documented boxcar smoothing of the frac-face pressure
         r = SinglePhaseReservoir(80, pf, pi, FlowProperties(pvt, pi))
         r.simulate(t / tau, pressure_fracface=pf)
         rf = np.asarray(r.recovery_factor(), float)
@@ -368,11 +371,11 @@ def replay_comparison(model, filt=False):
                 problems.append(f"{name}: x data {gx.tolist()} vs time/tau {wx.tolist()}")
             elif gy.shape != wy.shape or np.any(np.abs(gy - wy) > 1e-9 * (1 + np.abs(wy))):
                 problems.append(f"{name}: y data {gy.tolist()} vs {wy.tolist()}")
-    return bool(problems), {"what": f"plot_production_comparison(filter_zero_prod_days={filt}), Days {days.tolist()}: " + ("; ".join(problems[:2]) or "curves carry the data"),
+    return bool(problems), {"what": f"plot_production_comparison(filter_zero_prod_days={filt}, filter_window_size={window}), Days {days.tolist()}: " + ("; ".join(problems[:2]) or "curves carry the data"),
                             "inputs": {"tau": tau}}
 
 
-def job_comparison(job, filt):
+def job_comparison(job, filt, window=None):
     mod = load_sym("bluebonnet.forecast.forecast_pressure", pd=pd_shim.PD, plt=PltStub, FlowProperties=c18._flow_stub,
                    SinglePhaseReservoir=c18._ResStub, Parameters=c18.ParametersStub, Minimizer=c18.MinimizerStub, **SS.rebind())
     job.encoded(mod, "plot_production_comparison")
@@ -391,7 +394,7 @@ def job_comparison(job, filt):
     def run():
         PltStub.made.clear()
         c18.Rec.log.clear()
-        fig, (ax1, ax2) = mod.plot_production_comparison(frame, object(), par, filter_zero_prod_days=filt)
+        fig, (ax1, ax2) = mod.plot_production_comparison(frame, object(), par, filter_zero_prod_days=filt, filter_window_size=(None if window is None else Q(window)))
         return ax1, ax2, list(c18.Rec.log)
 
     for k, pr in enumerate(paths(job, run, [], max_paths=16)):
@@ -409,11 +412,13 @@ def job_comparison(job, filt):
             for g in gas:
                 acc = acc + g
                 cum.append(acc / M)
+            pshow = prs if window is None else list(SS.uniform_filter1d(SymArray(list(prs), "f8"), size=window).d)
+            simulated_with = [e for e in log if e[0] == "simulate"]
             bad = [_same(ax1.lines[0]["x"], ts), _same(ax1.lines[0]["y"], rf[0]), _same(ax1.lines[1]["x"], ts), _same(ax1.lines[1]["y"], cum),
-                   _same(ax2.lines[0]["x"], ts), _same(ax2.lines[0]["y"], prs)]
-        job.prove(f"comparison[filter={filt}]/curves are (t/tau, simulated recovery), (t/tau, cumulative/M), (t/tau, frac-face pressure)[path{k}]",
-                  pr.pc + [T.b_or(*bad) if ok else T.b_const(True)], bound="3 rows, any data", replay=(replay_comparison, {"filt": filt}))
-        job.prove(f"comparison[filter={filt}]/reach[path{k}]", pr.pc, expect="sat")
+                   _same(ax2.lines[0]["x"], ts), _same(ax2.lines[0]["y"], pshow)]
+        job.prove(f"comparison[filter={filt}{',window=' + str(window) if window else ''}]/curves are (t/tau, simulated recovery), (t/tau, cumulative/M), (t/tau, frac-face pressure)[path{k}]",
+                  pr.pc + [T.b_or(*bad) if ok else T.b_const(True)], bound="3 rows, any data", replay=(replay_comparison, {"filt": filt, "window": window}))
+        job.prove(f"comparison[filter={filt}{',window=' + str(window) if window else ''}]/reach[path{k}]", pr.pc, expect="sat")
 
 
 # concrete replays run on the real code when the changed code uses something the engine does not model (harness.finish)
@@ -422,7 +427,8 @@ FALLBACK = [(replay_plot, {}), (replay_plot_after_density, {}), (replay_transfor
 
 def jobs(tier):
     out = [("profiles", lambda j: job_profiles(j, 3, 4)), ("recovery-plots", lambda j: job_recovery_plots(j, 4)), ("transform", job_transform),
-           ("comparison-filter", lambda j: job_comparison(j, True)), ("comparison-nofilter", lambda j: job_comparison(j, False))]
+           ("comparison-filter", lambda j: job_comparison(j, True)), ("comparison-nofilter", lambda j: job_comparison(j, False)),
+           ("comparison-window2", lambda j: job_comparison(j, False, 2))]
     if tier != "quick":
         out += [("profiles-big", lambda j: job_profiles(j, 4, 7)), ("recovery-plots-6", lambda j: job_recovery_plots(j, 6))]
     return out
